@@ -197,7 +197,8 @@ def run(pid, lane, sample, rseed, scale, jobs, only_ops=None):
     if os.path.exists(logp):
         for l in open(logp):
             try:
-                done.add(json.loads(l)["id"])
+                r = json.loads(l)
+                done.add((r["file"], r["a"], r["e"], r["new"]))
             except Exception:
                 pass
     rnd = random.Random(rseed)
@@ -215,7 +216,7 @@ def run(pid, lane, sample, rseed, scale, jobs, only_ops=None):
     env = dict(os.environ, VERIF_REPO=wt, VERIF_EVIDENCE_DIR="/var/tmp/automut/evidence-%s" % lane,
                VERIF_SCALE=str(scale), VERIF_JOBS=str(jobs))
     for m in order:
-        if m["id"] in done:
+        if (m["file"], m["a"], m["e"], m["new"]) in done:
             continue
         path = os.path.join(wt, m["file"])
         data = open(path, "rb").read()
